@@ -1364,6 +1364,61 @@ fn main() {
                 lean.push_str(&format!("/-- FNV-1a 64 of `lock.pid` (the pid recorded in the lock file that was just read) -/\ndef lockPid : Nat := {}\n\n", fnv64(b"lock.pid")));
             }
         }
+        // the meta step of the stale cleanup (ripd/src/local_authority.rs): under which conditions
+        // meta.json is renamed away
+        {
+            struct MetaOps {
+                conds: Vec<String>,
+                ops: Vec<Vec<String>>,
+            }
+            impl<'ast> Visit<'ast> for MetaOps {
+                fn visit_expr_if(&mut self, e: &'ast syn::ExprIf) {
+                    self.visit_expr(&e.cond);
+                    self.conds.push(squash(&e.cond));
+                    self.visit_block(&e.then_branch);
+                    self.conds.pop();
+                    if let Some((_, els)) = &e.else_branch {
+                        self.visit_expr(els);
+                    }
+                }
+                fn visit_expr_call(&mut self, c: &'ast syn::ExprCall) {
+                    if let syn::Expr::Path(p) = &*c.func {
+                        let name = p.path.segments.last().map(|s| s.ident.to_string()).unwrap_or_default();
+                        if (name == "rename" || name == "remove_file") && c.args.first().map(|a| squash(a) == "&meta_path" || squash(a) == "meta_path").unwrap_or(false) {
+                            self.ops.push(self.conds.clone());
+                        }
+                    }
+                    syn::visit::visit_expr_call(self, c);
+                }
+            }
+            match load("crates/ripd/src/local_authority.rs", &mut parsed) {
+                Err(e) => {
+                    eprintln!("ripx: {e}");
+                    std::process::exit(1);
+                }
+                Ok(()) => {
+                    let mut finder = FnFinder { want_type: None, want_fn: "try_cleanup_stale_authority_files", cur_type: None, found: None };
+                    finder.visit_file(&parsed["crates/ripd/src/local_authority.rs"]);
+                    let mut m = MetaOps { conds: Vec::new(), ops: Vec::new() };
+                    match finder.found {
+                        None => {
+                            eprintln!("ripx: local_authority.rs: try_cleanup_stale_authority_files not found");
+                            std::process::exit(1);
+                        }
+                        Some(block) => m.visit_block(&block),
+                    }
+                    lean.push_str("/-- stale cleanup: for every rename / removal of `meta_path`, the FNV-1a 64 of each enclosing `if` condition, outermost first -/\n");
+                    lean.push_str("def metaRemovalGuards : List (List Nat) := [\n");
+                    let rows: Vec<String> = m.ops.iter().map(|cs| format!("  [{}] -- {}", cs.iter().map(|c| fnv64(c.as_bytes()).to_string()).collect::<Vec<_>>().join(", "), cs.join(" ; "))).collect();
+                    for (i, it) in rows.iter().enumerate() {
+                        let (a, b) = it.split_once(" -- ").unwrap();
+                        lean.push_str(&format!("{a}{} -- {b}\n", if i + 1 < rows.len() { "," } else { "" }));
+                    }
+                    lean.push_str("]\n\n");
+                    lean.push_str(&format!("/-- FNV-1a 64 of `meta.pid==expected_pid` -/\ndef metaPidIsExpected : Nat := {}\n\n", fnv64(b"meta.pid==expected_pid")));
+                }
+            }
+        }
         lean.push_str("end Rip.Gen.AuthRecovery\n");
         write_if_changed(&out.join("AuthRecovery.lean"), &lean);
     }
